@@ -535,12 +535,16 @@ func (c *Conn) Parse(data []byte) (retErr error) {
 								return
 							}
 						}
-						c.msgType = 0
-						c.compress = false
-						c.expectingFragments = false
-					} else {
-						c.expectingFragments = true
 					}
+				}
+				// the fragmentation state is kept for every conn, also
+				// for one that only has a data frame handler.
+				if fin {
+					c.msgType = 0
+					c.compress = false
+					c.expectingFragments = false
+				} else {
+					c.expectingFragments = true
 				}
 			case PingMessage, PongMessage, CloseMessage:
 				isProtocolMessage = true
